@@ -4,10 +4,10 @@ import Dasp.Model.Signal
     definitions `Props/C04.lean` / `Props/C05.lean` are about) on one whole case per line.
     Core Lean only.
 
-    <stream> <kind> <tree> | op …          kind: d1 = f64 mono, i2 = [i32;2], i3 = [i32;3], s2 = [i16;2]
+    <stream> <kind> <tree> | op …          kind: d1 = f64 mono, g2 = [f32;2], i2 = [i32;2], i3 = [i32;3], s2 = [i16;2], w2 = [u16;2]
 
     tree (prefix notation; F = frame `a,b`; integer kinds: samples/offsets/thresholds decimal,
-    amplitudes as numerators p of p/4; d1: everything as 16-digit hex `f64::to_bits`):
+    amplitudes as numerators p of p/4; d1 / g2: everything as 16- / 8-digit hex `to_bits`):
       fi <L> F…   fs <M> s…   eq   gc F   gm F F (frame i = A + i·B)
       ma K T (+K per sample)  mr T (reverse channels)  mn T (negate)          -- map closures
       zs A B (sum)  zd A B (difference)  zl A B (left)  zr A B (right)        -- zip_map closures
@@ -25,11 +25,11 @@ structure Kind (α : Type) where
   ops : Ops α
   parse : String → Option α
   shw : α → String
-  add : α → α → α
-  sub : α → α → α
-  neg : α → α
-  ofNat : Nat → α
-  mul : α → α → α        -- only for `gm`: index × step
+  add : α → α → α        -- closure of `zs`: sum of the amplitudes
+  sub : α → α → α        -- closure of `zd`
+  neg : α → α            -- closure of `mn`
+  shift : α → α → α      -- closure of `ma`: sample + signed amount
+  lin : α → Nat → α → α  -- closure of `gm`: a + i·b
 
 /-! #### integer kinds -/
 
@@ -54,8 +54,32 @@ def intKind (n : Nat) (lo hi : Int) : Kind Int where
   add := (· + ·)
   sub := (· - ·)
   neg := (- ·)
-  ofNat := Int.ofNat
-  mul := (· * ·)
+  shift := (· + ·)
+  lin a i b := a + Int.ofNat i * b
+
+/-! #### [u16;2]: unsigned samples, `Signed = i16`, `Float = f32`, equilibrium 32768.  The code goes
+    through the signed twin (`conv::u16::to_i16` = v − 32768 and back), so offsets/thresholds are
+    i16 amounts and every operation acts on the amplitude v − 32768 -/
+
+def u16E : Int := 32768
+
+def u16Ops : Ops Int where
+  eq := [u16E, u16E]
+  addAmp := List.zipWith (· + ·)                                   -- sample + i16 amount
+  mulAmp := List.zipWith fun v p => u16E + scaleQ (-32768) 32767 (v - u16E) p
+  scaleAmp f k := f.map fun v => u16E + scaleQ (-32768) 32767 (v - u16E) k
+  offsetAmp f k := f.map (· + k)
+  clipSample t v := u16E + clipInt t (v - u16E)
+
+def u16Kind : Kind Int where
+  ops := u16Ops
+  parse := String.toInt?
+  shw := toString
+  add x y := x + y - u16E
+  sub x y := x - y + u16E
+  neg x := 2 * u16E - x
+  shift := (· + ·)
+  lin a i b := a + Int.ofNat i * b
 
 /-! #### f64 mono: native `Float` (IEEE double, the same hardware operations as the Rust side) -/
 
@@ -64,12 +88,12 @@ def hexDigit (c : Char) : Option Nat :=
   else if 'a' ≤ c ∧ c ≤ 'f' then some (c.toNat - 'a'.toNat + 10)
   else none
 
-def parseHex (s : String) : Option Nat :=
-  if s.length != 16 then none
+def parseHex (w : Nat) (s : String) : Option Nat :=
+  if s.length != w then none
   else s.toList.foldlM (fun acc c => (hexDigit c).map (acc * 16 + ·)) 0
 
-def showHex (v : Nat) : String :=
-  let ds := (List.range 16).map fun i => (v / 16 ^ (15 - i)) % 16
+def showHex (w : Nat) (v : Nat) : String :=
+  let ds := (List.range w).map fun i => (v / 16 ^ (w - 1 - i)) % 16
   String.ofList (ds.map fun d => if d < 10 then Char.ofNat (d + 48) else Char.ofNat (d + 87))
 
 def f64Ops : Ops Float where
@@ -82,13 +106,33 @@ def f64Ops : Ops Float where
 
 def f64Kind : Kind Float where
   ops := f64Ops
-  parse s := (parseHex s).map fun v => Float.ofBits (UInt64.ofNat v)
-  shw x := showHex x.toBits.toNat
+  parse s := (parseHex 16 s).map fun v => Float.ofBits (UInt64.ofNat v)
+  shw x := showHex 16 x.toBits.toNat
   add := (· + ·)
   sub := (· - ·)
   neg := (- ·)
-  ofNat := Float.ofNat
-  mul := (· * ·)
+  shift := (· + ·)
+  lin a i b := a + Float.ofNat i * b
+
+/-! #### [f32;2]: native `Float32` (IEEE single) -/
+
+def f32Ops : Ops Float32 where
+  eq := [0.0, 0.0]
+  addAmp := List.zipWith (· + ·)
+  mulAmp := List.zipWith (· * ·)
+  scaleAmp f k := f.map (· * k)
+  offsetAmp f k := f.map (· + k)
+  clipSample t s := if s > t then t else if s < -t then -t else s
+
+def f32Kind : Kind Float32 where
+  ops := f32Ops
+  parse s := (parseHex 8 s).map fun v => Float32.ofBits (UInt32.ofNat v)
+  shw x := showHex 8 x.toBits.toNat
+  add := (· + ·)
+  sub := (· - ·)
+  neg := (- ·)
+  shift := (· + ·)
+  lin a i b := a + Float32.ofNat i * b
 
 /-! #### parsing and running a case -/
 section
@@ -138,10 +182,10 @@ def parseTree (nch : Nat) (hole : Option (St α)) : Nat → List String → Opti
     | "gc" :: f :: rest => (parseFrame K f).map fun f => (.gen (fun _ => f) 0, rest, 0)
     | "gm" :: a :: b :: rest =>
       match parseFrame K a, parseFrame K b with
-      | some a, some b => some (.gen (fun i => List.zipWith (fun x y => K.add x (K.mul (K.ofNat i) y)) a b) 0, rest, 0)
+      | some a, some b => some (.gen (fun i => List.zipWith (fun x y => K.lin x i y) a b) 0, rest, 0)
       | _, _ => none
     | "ma" :: k :: rest => match K.parse k with
-      | some k => un (.map fun f => f.map (K.add · k)) rest
+      | some k => un (.map fun f => f.map (K.shift · k)) rest
       | none => none
     | "mr" :: rest => un (.map List.reverse) rest
     | "mn" :: rest => un (.map fun f => f.map K.neg) rest
@@ -277,6 +321,8 @@ def sigLine (args : List String) : String :=
   | "i2" :: rest => runCase (intKind 2 i32lo i32hi) 2 rest
   | "i3" :: rest => runCase (intKind 3 i32lo i32hi) 3 rest
   | "s2" :: rest => runCase (intKind 2 (-32768) 32767) 2 rest
+  | "w2" :: rest => runCase u16Kind 2 rest
+  | "g2" :: rest => runCase f32Kind 2 rest
   | _ => "bad-op"
 
 end Dasp.Driver
